@@ -43,8 +43,8 @@ impl Default for Stats { fn default() -> (r: Self) ensures r.pop() == 0, r.succ(
 //@fn from_iter ret r vis pub
 //@| requires iter.len() < usize::MAX,
 //@| ensures r.pop() == iter.len(), r.succ() == count_true(iter@, iter.len() as int),
-//@loop 0| invariant stats.succ() <= stats.pop(), iter.len() < usize::MAX,
-//@loop 0|     stats.pop() == it.index@, stats.succ() == count_true(iter@, it.index@ as int),
+//@loop 0| invariant $mut0.succ() <= $mut0.pop(), iter.len() < usize::MAX,
+//@loop 0|     $mut0.pop() == it.index@, $mut0.succ() == count_true(iter@, it.index@ as int),
 //@endimpl
 // how many elements of the prefix the predicate closure accepts (through the closure's own postcondition)
 pub open spec fn accepts<T, F: Fn(&T) -> bool>(f: F, x: T) -> bool { f.ensures((&x,), true) }
